@@ -1,4 +1,5 @@
 import GoagModel.JsonWriter
+import GoagModel.Props.C07
 /-
   C06 (and the validity half of C07) — the object writer emitted by goag produces a
   well-formed JSON object body for EVERY value: whatever subset of optional properties is
@@ -130,5 +131,97 @@ theorem old_writer_leading_comma :
 example : parseMembers (writeItems [Item.prop "x" (.raw "5"), Item.embedded [Item.skip, Item.prop "a" .null], Item.skip, Item.prop "z" (.arr [])] W.start).out
     = some [("x", .raw "5"), ("a", .null), ("z", .arr [])] := by
   rw [encode_members_wellformed]; simp [flatten]
+
+end Goag.JsonM
+
+namespace Goag.JsonM
+
+/-! ### the object level of the round trip
+
+  `toJFields` (model of the emitted property writer) followed by `decodeFields` (model of the
+  emitted per-property decoder over the shared key map) is the identity on the property values,
+  for EVERY property list with distinct names — given that each property's own value round-trips
+  (the hypothesis `hval`, which is the same statement one level down). Unset optional properties
+  stay unset; nothing is left over in the key map. -/
+
+theorem lookupAssoc_absent (ms : List (String × J)) (k : String) (h : k ∉ ms.map (·.1)) : lookupAssoc ms k = none := by
+  unfold lookupAssoc
+  have : ms.reverse.find? (·.1 == k) = none := by
+    rw [List.find?_eq_none]
+    intro x hx
+    have hx' : x ∈ ms := List.mem_reverse.mp hx
+    intro hk
+    simp only [beq_iff_eq] at hk
+    exact h (List.mem_map.mpr ⟨x, hx', hk⟩)
+  simp [this]
+
+theorem lookupAssoc_head (ms : List (String × J)) (k : String) (j : J) (h : k ∉ ms.map (·.1)) :
+    lookupAssoc ((k, j) :: ms) k = some j := by
+  unfold lookupAssoc
+  have hnone : ms.reverse.find? (·.1 == k) = none := by
+    rw [List.find?_eq_none]
+    intro x hx hk
+    simp only [beq_iff_eq] at hk
+    exact h (List.mem_map.mpr ⟨x, List.mem_reverse.mp hx, hk⟩)
+  simp [List.reverse_cons, List.find?_append, hnone]
+
+theorem eraseKey_head (ms : List (String × J)) (k : String) (j : J) (h : k ∉ ms.map (·.1)) :
+    eraseKey ((k, j) :: ms) k = ms := by
+  unfold eraseKey
+  simp only [List.filter_cons, bne_self_eq_false, Bool.false_eq_true, if_false]
+  rw [List.filter_eq_self]
+  intro x hx
+  simp only [bne_iff_ne, ne_eq]
+  intro hk
+  exact h (List.mem_map.mpr ⟨x, hx, hk⟩)
+
+theorem fields_roundtrip (tbl : LeafDec) (fields : List (String × Bool × Schema)) (vs : List Val)
+    (ms : List (String × J)) (hnd : (fields.map (·.1)).Nodup)
+    (h : toJFields fields vs = .ok (ms, []))
+    (hval : ∀ name req s, (name, req, s) ∈ fields → ∀ v j, v ≠ .unset → toJ s v = .ok j → decode tbl s j = .ok v) :
+    decodeFields tbl fields ms = .ok (vs, []) := by
+  induction fields generalizing vs ms with
+  | nil =>
+    cases vs with
+    | nil => rw [toJFields] at h; simp at h; subst h; rw [decodeFields]
+    | cons v vt => rw [toJFields] at h; simp at h
+  | cons f fs ih =>
+    obtain ⟨name, req, s⟩ := f
+    simp only [List.map_cons, List.nodup_cons] at hnd
+    obtain ⟨hname, hnd'⟩ := hnd
+    have hval' : ∀ name' req' s', (name', req', s') ∈ fs → ∀ v j, v ≠ .unset → toJ s' v = .ok j → decode tbl s' j = .ok v :=
+      fun n r s' hm => hval n r s' (List.mem_cons_of_mem _ hm)
+    cases vs with
+    | nil => rw [toJFields] at h; simp at h
+    | cons v vt =>
+      by_cases hv : v = .unset
+      · subst hv
+        rw [toJFields_cons_unset] at h
+        by_cases hreq : req = true
+        · simp [hreq] at h
+        · simp only [hreq, Bool.false_eq_true, if_false] at h
+          have hsub := toJFields_names_declared fs vt ms [] h
+          have habs : name ∉ ms.map (·.1) := fun hm => hname (hsub.subset hm)
+          rw [decodeFields, lookupAssoc_absent ms name habs]
+          simp only [hreq, Bool.false_eq_true, if_false]
+          rw [ih vt ms hnd' h hval']
+      · rw [toJFields_cons_set _ _ _ _ _ _ hv] at h
+        cases hj : toJ s v with
+        | error e => simp [hj] at h
+        | ok j =>
+          cases hr : toJFields fs vt with
+          | error e => simp [hj, hr] at h
+          | ok p =>
+            obtain ⟨pm, pr⟩ := p
+            simp only [hj, hr, Except.ok.injEq, Prod.mk.injEq] at h
+            obtain ⟨hms, hpr⟩ := h
+            subst hpr
+            subst hms
+            have hsub := toJFields_names_declared fs vt pm [] hr
+            have habs : name ∉ pm.map (·.1) := fun hm => hname (hsub.subset hm)
+            have hdec := hval name req s List.mem_cons_self v j hv hj
+            rw [decodeFields, lookupAssoc_head pm name j habs]
+            simp only [hdec, eraseKey_head pm name j habs]
+            rw [ih vt pm hnd' hr hval']
 
 end Goag.JsonM
